@@ -1,7 +1,7 @@
 //! `pvh cmp` — seed-compressed objects versus standard encryption (property C19).
 //!
 //! Request:  `id <layout> be=<backend> n= b= k= kxe= rank= [rank_in=] dnum= dsize= dist= sxs= sxa= sxe= [p=] [pt=<cols>]`
-//!   layouts: glwe | gglwe | ggsw | ksk (switching key) | atk (automorphism key) | tsk (tensor key) | g2g (GGLWE→GGSW key)
+//!   layouts: lwec (LWECompressed built from its wire format, `nl=` receiver dimension) | glwe | gglwe | ggsw | ksk (switching key) | atk (automorphism key) | tsk (tensor key) | g2g (GGLWE→GGSW key)
 //! Answer:   `id ok cells=<c> masks=<c ok> dec=<c ok> cellenc=<c ok|-1> ser=<0|1> seedwords=<0|1> …`
 //!   cells     number of ciphertext cells of the decompressed object
 //!   masks     cells whose mask columns equal `vec_znx_fill_uniform` from `Source::new(stored seed)` in column order 1..rank
@@ -22,14 +22,15 @@ use poulpy_core::{
     EncryptionLayout, GGLWECompressedEncryptSk, GGLWEEncryptSk, GGLWEToGGSWKeyCompressedEncryptSk, GGLWEToGGSWKeyEncryptSk,
     GGSWCompressedEncryptSk, GGSWEncryptSk, GLWEAutomorphismKeyCompressedEncryptSk, GLWEAutomorphismKeyEncryptSk,
     GLWECompressedEncryptSk, GLWEEncryptSk, GLWESwitchingKeyCompressedEncryptSk, GLWESwitchingKeyEncryptSk,
-    GLWETensorKeyCompressedEncryptSk, GLWETensorKeyEncryptSk,
+    GLWETensorKeyCompressedEncryptSk, GLWETensorKeyEncryptSk, LWEEncryptSk,
     layouts::{
         Base2K, Degree, Dnum, Dsize, GGLWE, GGLWECompressed, GGLWECompressedSeed, GGLWECompressedToRef, GGLWEDecompress, GGLWELayout,
         GGLWEToGGSWKey, GGLWEToGGSWKeyCompressed, GGLWEToGGSWKeyDecompress, GGLWEToRef, GGSW, GGSWCompressed, GGSWCompressedSeed,
         GGSWDecompress, GGSWLayout, GLWE, GLWEAutomorphismKey, GLWEAutomorphismKeyCompressed, GLWEAutomorphismKeyDecompress,
         GLWECompressed, GLWECompressedSeed, GLWEDecompress, GLWELayout, GLWEPlaintext, GLWESecret, GLWESecretPreparedFactory,
         GLWESwitchingKey, GLWESwitchingKeyCompressed, GLWESwitchingKeyDecompress, GLWETensorKey, GLWETensorKeyCompressed,
-        GLWETensorKeyDecompress, LWEInfos, Rank, TorusPrecision,
+        GLWETensorKeyDecompress, GLWEToLWEKey, GLWEToLWESwitchingKeyCompressed, GLWEToLWESwitchingKeyDecompress, LWE, LWECompressed, LWESwitchingKey,
+        LWESwitchingKeyCompressed, LWESwitchingKeyDecompress, LWEToGLWEKey, LWEToGLWEKeyCompressed, LWEToGLWEKeyDecompress, LWEDecompress, LWEInfos, LWELayout, LWEPlaintext, LWESecret, Rank, TorusPrecision,
     },
 };
 use poulpy_cpu_avx::{FFT64Avx, NTT120Avx};
@@ -233,6 +234,7 @@ macro_rules! cmp_backend {
                     let mut xe_c = Source::new(seed32(sxe));
                     let mut xe_s = Source::new(seed32(sxe));
                     let mut xa_s = Source::new(seed32(sxa ^ 0x5555));
+                    let mut wrappers = 0;
                     match op {
                         "gglwe" => {
                             let mut c = GGLWECompressed::alloc_from_infos(&gglwe_layout);
@@ -260,7 +262,38 @@ macro_rules! cmp_backend {
                             c2.read_from(&mut &bytes[..]).unwrap();
                             let mut d2 = GLWESwitchingKey::alloc_from_infos(&gglwe_layout);
                             module.decompress_glwe_switching_key(&mut d2, &c2);
-                            let ok = ser(&c2) == bytes && ser(&d2) == ser(&d);
+                            let mut ok = ser(&c2) == bytes && ser(&d2) == ser(&d);
+                            // the LWE-related wrappers (no producing routine of their own): the same bytes read into the compressed wrapper
+                            // the shape admits must re-serialise identically; the wrapper's decompression trait (whose `other` bound —
+                            // GLWESwitchingKeyDegrees — the compressed wrappers themselves do not implement, so it is fed the
+                            // GLWESwitchingKeyCompressed) must give the same key in the standard wrapper
+                            if dsize == 1 {
+                                let dn = Dnum(dnum as u32);
+                                if rank_in == 1 && rank == 1 {
+                                    let mut w = LWESwitchingKeyCompressed::alloc(deg, bk, tk, dn);
+                                    w.read_from(&mut &bytes[..]).unwrap();
+                                    let mut dw = LWESwitchingKey::alloc(deg, bk, tk, dn);
+                                    module.decompress_lwe_switching_key(&mut dw, &c);
+                                    ok &= ser(&w) == bytes && ser(&dw) == ser(&d);
+                                    wrappers += 1;
+                                }
+                                if rank == 1 {
+                                    let mut w = GLWEToLWESwitchingKeyCompressed::alloc(deg, bk, tk, Rank(rank_in as u32), dn);
+                                    w.read_from(&mut &bytes[..]).unwrap();
+                                    let mut dw = GLWEToLWEKey::alloc(deg, bk, tk, Rank(rank_in as u32), dn);
+                                    module.decompress_glwe_to_lwe_key(&mut dw, &c);
+                                    ok &= ser(&w) == bytes && ser(&dw) == ser(&d);
+                                    wrappers += 1;
+                                }
+                                if rank_in == 1 {
+                                    let mut w = LWEToGLWEKeyCompressed::alloc(deg, bk, tk, Rank(rank as u32), dn);
+                                    w.read_from(&mut &bytes[..]).unwrap();
+                                    let mut dw = LWEToGLWEKey::alloc(deg, bk, tk, Rank(rank as u32), dn);
+                                    module.decompress_lwe_to_glwe_key(&mut dw, &c);
+                                    ok &= ser(&w) == bytes && ser(&dw) == ser(&d);
+                                    wrappers += 1;
+                                }
+                            }
                             subs.push((own_gglwe(&d.to_ref()), own_gglwe(&s.to_ref()), c.to_ref().seed().clone(), ok));
                         }
                         "atk" => {
@@ -411,6 +444,7 @@ macro_rules! cmp_backend {
                             ne = -1;
                         }
                     }
+                    tail += &format!(" wrappers={wrappers}");
                     cells = nc;
                     masks = nm;
                     dec = nd;
@@ -481,6 +515,55 @@ macro_rules! cmp_backend {
                         errs.join(";"),
                         all_obj.join("/")
                     );
+                }
+                "lwec" => {
+                    // LWECompressed has no encryption routine: the object is built from its wire format (k, base2k, seed, body VecZnx)
+                    // out of a standard LWE ciphertext encrypted with source_xa = Source::new(seed); `decompress_lwe` must give that
+                    // ciphertext back.  `nl` = LWE dimension of the receiver.
+                    let nl = kv_us(t, "nl").max(1);
+                    let layout = LWELayout { n: Degree(nl as u32), k: tk, base2k: bk };
+                    let enc = EncryptionLayout::new(layout, noise).unwrap();
+                    let mut skl = LWESecret::alloc(Degree(nl as u32));
+                    fill_lwe_secret(&mut skl, dist, &mut Source::new(seed32(sxs)));
+                    let mut ptl = LWEPlaintext::alloc(bk, tk);
+                    load_col(ptl.data_mut(), 0, kv(t, "ptv").unwrap_or("-"));
+                    let mut ct = LWE::alloc_from_infos(&layout);
+                    module.lwe_encrypt_sk(&mut ct, &ptl, &skl, &enc, &mut Source::new(seed32(sxe)), &mut Source::new(seed32(sxa)), scratch.borrow());
+                    let mut bytes: Vec<u8> = Vec::new();
+                    bytes.extend_from_slice(&(k as u32).to_le_bytes());
+                    bytes.extend_from_slice(&(b as u32).to_le_bytes());
+                    bytes.extend_from_slice(&seed32(sxa));
+                    for v in [1u64, 1, size as u64, size as u64, (size * 8) as u64] {
+                        bytes.extend_from_slice(&v.to_le_bytes());
+                    }
+                    for j in 0..size {
+                        bytes.extend_from_slice(&ct.data().at(0, j)[0].to_le_bytes());
+                    }
+                    let mut lc = LWECompressed::alloc(bk, tk);
+                    lc.read_from(&mut &bytes[..]).unwrap();
+                    ser_ok = (ser(&lc) == bytes) as i32;
+                    let mut d = LWE::alloc_from_infos(&layout);
+                    let r = std::panic::catch_unwind(std::panic::AssertUnwindSafe(|| {
+                        module.decompress_lwe(&mut d, &lc);
+                    }));
+                    cells = 1;
+                    seedwords = 1;
+                    cellenc = -1;
+                    let body: Vec<String> = (0..size).map(|j| ct.data().at(0, j)[0].to_string()).collect();
+                    let child = words(&mut Source::new(seed32(sxa)), (nl + 1) * size);
+                    tail = format!(" body={} child={} obj={}", body.join(","), show_words(&child), show_col(ct.data(), 0));
+                    match r {
+                        Ok(()) => {
+                            dec = (d.data().raw() == ct.data().raw()) as i32;
+                            masks = dec;
+                        }
+                        Err(e) => {
+                            dec = -2;
+                            masks = -2;
+                            let msg: String = panic_msg(&e).chars().map(|c| if c.is_whitespace() { '_' } else { c }).take(100).collect();
+                            tail += &format!(" panic={msg}");
+                        }
+                    }
                 }
                 _ => return "bad-op".to_string(),
             }
